@@ -15,7 +15,7 @@ try:
     dest = m.group(1)
     stem = os.path.splitext(os.path.basename(dest))[0]
     pkg = dest.split("/")[1]
-    feat = " --features preserve_order" if "--features preserve_order" in demo else ""
+    feat = " --features preserve_order" if "--features preserve_order" in demo else (" --features perf" if "--features perf" in demo else "")
     if "/examples/" in dest:
         run = "cargo run -q -p %s --example %s --offline%s" % (pkg, stem, feat)
     else:
